@@ -239,7 +239,7 @@ func main() {
 	c := kit.Parse("C02", os.Args[1:])
 	nGroup, nSolve := 700, 350
 	if c.Thorough() {
-		nGroup, nSolve = 6000, 3000
+		nGroup, nSolve = 6000, 2500
 	}
 	dbg := os.Getenv("C02_DEBUG") // case id to run alone with a dump (development aid)
 	for i := 0; i < nGroup; i++ {
@@ -279,5 +279,5 @@ func main() {
 		"pods placed on an existing node that lacks the topology label are in no domain and are not judged (counted as observation buckets)",
 		"cluster-level default topology spread constraints (defaultconstraints.go) are off (no --scheduler-config)",
 	}}
-	c.Finish("From KV Require Import Base.Req C02.Model C02.Spec C02.Check.", "case", "check_all", map[bool]int{false: 300, true: 1000}[c.Thorough()])
+	c.Finish("From KV Require Import Base.Req C02.Model C02.Spec C02.Check.", "case", "check_all", map[bool]int{false: 300, true: 800}[c.Thorough()])
 }
